@@ -167,7 +167,9 @@ pub fn siqs(
     if rels.len() > fbase.len() + relations::MIN_KERNEL_SIZE {
         rels.truncate(fbase.len() + relations::MIN_KERNEL_SIZE)
     }
-    if s.gap.load(Ordering::Relaxed) != 0 && rels.len() <= fbase.len() {
+    // The gap flag can be overwritten with a stale value when several threads
+    // update it concurrently: rely on the done flag, which is only ever set.
+    if !s.done.load(Ordering::Relaxed) && rels.len() <= fbase.len() {
         panic!("Internal error: not enough smooth numbers with selected parameters (n={n})");
     }
     let rels = rels.into_inner();
